@@ -95,6 +95,11 @@ var c13Extra = []Prog{
 	{"[intersect(l, l), l]", "map", false, false},
 	{"string(l) + string(union(l, [1])) + string(l)", "map", false, false},
 	{"l[2] + len(diff(l, [2]))", "struct", false, false},
+	{"[[x, 1], [2, 3]]", "map", false, false},
+	{"[\"a\": [x], \"b\": [2], \"c\": [3]]", "struct", false, false},
+	{"{id: [n], tags: [\"k\": 1, \"j\": 2], deep: {inner: [s]}}", "map", false, false},
+	{"[[s: 1], [\"b\": 2]]", "map", false, false},
+	{"[{a: [l[0]]}, {a: [2]}]", "struct", false, false},
 	{"[\"a\": 1, \"a\": 2, \"b\": 3]", "none", false, false},
 	{"string([\"a\": 1, \"b\": 3, \"a\": 2])", "none", false, false},
 	{"[n: \"x\", 42: \"y\", 41 + 1: \"z\"]", "map", false, false},
@@ -584,7 +589,9 @@ func genHist13(r *rng) *Hist13 {
 		case c < 9:
 			ci := compiles[r.intn(len(compiles))]
 			env := h.Ops[ci].Prog.Env
-			if r.chance(0.15) {
+			if st := sameTyped[env]; len(st) > 0 && r.chance(0.45) {
+				env = st[r.intn(len(st))] // same types, possibly other contents / another carrier
+			} else if r.chance(0.15) {
 				env = envNames[r.intn(len(envNames))]
 			}
 			h.Ops = append(h.Ops, H13Op{K: "invoke", C: ci, Env: env, Carrier: carriers[r.intn(4)], StdoutFail: r.chance(0.05)})
